@@ -30,7 +30,7 @@ func AlphaV1Contracts(w *World) []Action {
 // AlphaV2Contracts: v2 contract life cycle.
 func AlphaV2Contracts(w *World) []Action {
 	return []Action{
-		V2Form(1, 2, 100), V2Form(0, 1, 0), V2Revise("pay"), V2Revise("risk"), V2Revise("grow"), V2Revise("keys"), V2Revise("heights"),
+		V2Form(1, 2, 100), V2Form(0, 1, 0), V2Revise("pay"), V2Revise("risk"), V2Revise("grow"), V2Revise("keys"), V2Revise("heights"), V2Revise("refund"),
 		V2Renew("none"), V2Renew("partial"), V2Renew("full"), V2Proof(), V2Expire(), V2Pay(AddrV2, true, 1),
 	}
 }
